@@ -97,7 +97,7 @@ RleRoundTrip == \A s \in Strings : RleDec(RleEnc(s)) = s
 
 RECURSIVE Cat(_)
 Cat(u) == IF u = <<>> THEN "" ELSE Head(u) \o Cat(Tail(u))
-Order == <<"~", "a", "1", "B", "e", "E", "q", "@", ":", "_", "0", "x", "b">>
+Order == <<"~", "a", "1", "B", "e", "E", "q", "@", "n">>      \* every alphabet character gets its own digit
 Idx(c) == CHOOSE i \in 1..Len(Order) : Order[i] = c
 RECURSIVE Id(_)
 Id(u) == IF u = <<>> THEN "" ELSE ToString(Idx(Head(u)) % 10) \o Id(Tail(u))
